@@ -56,6 +56,13 @@ HARMLESS = [
  ("jump-list-as-tuple", "match.py", 'jump_mnemonics = [\n            "call", "callq", "jmp", "jne", "je", "jg", "jge", "jl", "jle", "jz", "jnz"\n        ]', 'jump_mnemonics = (\n            "call", "callq", "jmp", "jne", "je", "jg", "jge", "jl", "jle", "jz", "jnz"\n        )', ["C18"]),
  ("parser-hex-class-lower-upper", PARSER, 'HEX_NUMBER = "[0-9a-fA-F]"', 'HEX_NUMBER = "[0-9A-Fa-f]"', ["C08", "C16", "C09"]),
  ("macro-name-check-helper-inlined", "jasm_regex/macro_expander/macro_expander.py", '            if not self.is_macro_name(macro_name):', '            if not macro_name.startswith("@"):', ["C19", "C13"]),
+ ("parser-precompiled-regexes", PARSER, 'match = re.match(INSTRUCTION_W_OPERANDS, self.line)', 'match = re.compile(INSTRUCTION_W_OPERANDS).match(self.line)', ["C08", "C16", "C09"]),
+ ("parser-fullmatch-label", PARSER, 'match = re.match(LINE_IS_LABER, self.line)', 'match = re.fullmatch(LINE_IS_LABER.rstrip("$"), self.line)', ["C08", "C16"]),
+ ("consumer-positional-engine-args", "consumer.py", 'match_iterator = regex.finditer(\n                pattern=self._regex_rule, string=self._all_instructions, timeout=self.timeout_regex\n            )', 'match_iterator = regex.finditer(self._regex_rule, self._all_instructions, timeout=self.timeout_regex)', ["C11", "C12"]),
+ ("validaddr-checks-reordered", "match.py", '        inst_addr_jump = inst.operands[0] if inst.operands else None\n\n        if inst_addr_jump is None:\n            return inst\n\n        # The instruction is a jmp or call\n        if inst.mnemonic in jump_mnemonics:\n', '        if inst.mnemonic not in jump_mnemonics:\n            return inst\n        inst_addr_jump = inst.operands[0] if inst.operands else None\n\n        if inst_addr_jump is None:\n            return inst\n\n        if True:\n', ["C18"]),
+ ("macro-names-validated-by-comprehension", "jasm_regex/macro_expander/macro_expander.py", '        for macro in macros:\n            macro_name = macro.get("name")\n            if not self.is_macro_name(macro_name):\n                raise ValueError(f"Macro name {macro_name} must start with \'@\'")\n', '        bad_names = [macro.get("name") for macro in macros if not self.is_macro_name(macro.get("name"))]\n        if bad_names:\n            raise ValueError(f"Macro name {bad_names[0]} must start with \'@\'")\n', ["C19", "C13", "C17"]),
+ ("stringify-by-concatenation", "global_definitions.py", 'return f"{self.addr}::{self.mnemonic},{\',\'.join(self.operands)}"', 'return self.addr + "::" + self.mnemonic + "," + ",".join(self.operands)', ["C10", "C08"]),
+ ("config-get-instance-everywhere", "match.py", '        self.global_config = JASMConfig()', '        self.global_config = JASMConfig.get_instance()', ["C14", "C12", "C18"]),
  ("argparse-help-text", "parse_arguments.py", 'help="Return only matched addresses"', 'help="Only print the addresses of the matches"', ["C20"]),
 ]
 
